@@ -261,8 +261,13 @@ def hackComments (execLines : List Str) : Except ParseError (List Str) :=
     .ok (execLines.zipIdx.map fun (l, i) =>
       if starts.contains i && startsWith ['#'] l then "_._ = None".toList else l)
 
-def dedupSorted (l : List Nat) : List Nat :=
-  (l.toArray.qsort (· < ·)).toList.eraseDups
+/-- insertion into a strictly increasing list, dropping duplicates -/
+def insertSorted (x : Nat) : List Nat → List Nat
+  | [] => [x]
+  | y :: ys => if x < y then x :: y :: ys else if x = y then y :: ys else y :: insertSorted x ys
+
+/-- `sorted(set(l))` : structural (insertion sort), so that sortedness and membership are provable -/
+def dedupSorted (l : List Nat) : List Nat := l.foldr insertSorted []
 
 /-- `_locate_ps1_linenos(source_lines)` -/
 def locatePs1 (sourceLines : List Str) (facts : ChunkFacts) : Except ParseError (List Nat × CompileMode) :=
